@@ -48,7 +48,7 @@ def run_case(case: Dict[str, Any]) -> CaseResult:
 def strategy(tier: str) -> Any:
     modes = ("ctl", "ctl", "free", "ctl-ex") if tier == "thorough" else ("ctl", "ctl", "free", "ctl-ex")
     return sc.sched_case(tier=tier, modes=modes, dep_kinds=("pos", "kw"), flags=True, seq_rate=0.15, prio=(-2, 4),
-                         config_rate=0.1, profile_rate=0.25, index_rate=0.3, bad_index_rate=0.08, n_setup=4, setup_call_rate=0.15,
+                         config_rate=0.1, profile_rate=0.25, index_rate=0.3, bad_index_rate=0.08, n_setup=4, setup_call_rate=0.3,
                          many_args_rate=0.04)
 
 
